@@ -218,6 +218,19 @@ CodefilePartA(z) ==
       u \in {v \in (1..2) \X (1..6) \X (1..5) \X (1..3) \X (1..3) \X (1..15) :
                 Sel(v[1] + v[2] + v[3] + v[4] + v[5] + v[6])}}
 
+(* a program without a directory that is handed a code file: the code file  *)
+(* HAS a directory (that of its command-line path), the program has none    *)
+VirtCodefileScen(route, c, inner, pres, jp, k) ==
+  LET o == Opt(route, VarName(route, 1), c) IN
+  ScenO("virt", AFiles(pres) \cup CfLinks
+                \cup {<<CF, Code(10, <<inner>>, <<>>, FALSE)>>,
+                      <<MainPath, Code(0, IF k = 1 THEN <<Dem(o)>> ELSE IF k = 2 THEN <<Dem(o), Stmt("import", Abs(CF), 0)>>
+                                          ELSE <<Stmt("import", <<A>>, 0), Dem(o)>>, <<>>, FALSE)>>}, jp, MainPath, <<o>>)
+VirtCodefilePart(z) ==
+  {VirtCodefileScen(RouteQ[u[1]], CfCmdQ[u[2]], CfInnerQ[u[3]], CfPresQ[u[4]], CfJQ[u[5]], u[6]) :
+      u \in {v \in (1..2) \X (1..6) \X (1..5) \X (1..3) \X (1..3) \X (1..3) :
+                Sel(v[1] + v[2] + v[3] + v[4] + v[5] + v[6])}}
+
 (* a code file that is missing, a directory, a dangling link, below a plain  *)
 (* file, a link loop; alone, or before / after an option that is fine        *)
 CfBadQ == <<LSub \o <<"nofile.libsonnet">>, LSub, LMain \o <<"dang.libsonnet">>, MainPath \o <<"x">>,
@@ -300,12 +313,12 @@ ContentPart(z) ==
                     <<MainPath, Code(0, <<Stmt("str", <<"d.bin">>, 0), Stmt("bin", <<"d.bin">>, 0)>>, <<>>, FALSE)>>},
         <<>>, MainPath) : b \in ByteSeqs(z)}
 
-NSub(m) == CASE m = "laws" -> 2 [] m = "pairs" -> 4 [] m = "cycles" -> 2 [] m = "codefile" -> 4 [] OTHER -> 1
+NSub(m) == CASE m = "laws" -> 2 [] m = "pairs" -> 4 [] m = "cycles" -> 2 [] m = "codefile" -> 4 [] m = "virt" -> 2 [] OTHER -> 1
 Part(m, i) ==
   CASE m = "search" -> SearchPart(m)
     [] m = "special" -> SpecialPart(m)
     [] m = "invoc" -> InvocPart(m)
-    [] m = "virt" -> VirtPart(m)
+    [] m = "virt" -> IF i = 1 THEN VirtPart(m) ELSE VirtCodefilePart(m)
     [] m = "laws" -> IF i = 1 THEN LawsPartA(m) ELSE LawsPartB(m)
     [] m = "pairs" -> IF i = 1 THEN PairsPartA(m) ELSE IF i = 2 THEN PairsPartB(m) ELSE IF i = 3 THEN PairsPartC(m) ELSE PairsPartD(m)
     [] m = "cycles" -> IF i = 1 THEN {s \in CyclesPart(m) : CyclesOk(s)} ELSE SelfPart(m)
